@@ -10,6 +10,7 @@ import (
 	"runtime"
 	"sort"
 	"strconv"
+	"strings"
 	"sync"
 	"time"
 
@@ -153,6 +154,9 @@ func (r *Run) Phase(name string, body explore.Body, po PhaseOpts) explore.Stats 
 			explore.Serve(body, eo, os.Stdin, os.Stdout)
 			os.Exit(0)
 		}
+		return explore.Stats{}
+	}
+	if only := os.Getenv("VERIF_ONLY_PHASE"); only != "" && !strings.Contains(name, only) {
 		return explore.Stats{}
 	}
 	dl := r.Deadline
